@@ -63,8 +63,9 @@ def finish_model_jobs(run, jobs):
     r = jobs["cov"].result()
     if not r.ok:
         raise vlib.InfraError("coverage run of the closed model failed: %s" % (r.violated or r.error))
-    zero = [m.group(1) for m in re.finditer(r"^<(\w+ line \d+[^>]*)>: (\d+):0$", r.stdout, re.M)]
-    acts = re.findall(r"^<(?:NextCov|Emit) line [^>]*>: \d+:\d+$", r.stdout, re.M)
+    final = r.stdout.split("The coverage statistics at")[-1]      # a slow run also prints interim reports (levels not reached yet)
+    zero = [m.group(1) for m in re.finditer(r"^<(\w+ line \d+[^>]*)>: (\d+):0$", final, re.M)]
+    acts = re.findall(r"^<(?:NextCov|Emit) line [^>]*>: \d+:\d+$", final, re.M)
     if zero or len(acts) < 5:
         raise vlib.InfraError("vacuous closed model: actions never taken %s (%d action lines)" % (zero, len(acts)))
     reach = set(re.findall(r'<<"REACH", "(\w+)">>', r.stdout))
